@@ -116,6 +116,35 @@ def run(ctx):
         if not dom.relclose(float(fit2.M_), mstar, 1e-4):  # the trust-region solver stops a hair inside an active bound
             bad("with tau supplied, M is not the bounded least-squares optimum (clipped sum(r y)/sum(r r))", dict(**inp, tau_given=tau_given, bounds=[lo, hi]),
                 dict(M=float(fit2.M_), optimum=mstar))
+    # ---------------- integer-typed production tables (daily counts): the default guess, built from the data, lies below
+    # non-integer lower limits and must still be moved inside the bounds, for a free and for a supplied tau
+    for k in range(6 if ctx.quick else 60):
+        cname = list(crv)[k % len(crv)]
+        rf = crv[cname]
+        M = float(10 ** rng.uniform(3, 6))
+        tau = float(rng.integers(200, 4000))
+        ti = np.arange(1, int(rng.integers(30, 90)) + 1, dtype=[np.int64, np.int32][k % 2]) * int(max(1, tau // 200))
+        yi = np.round(M * np.asarray(rf(ti / tau), float)).astype(np.int64)
+        if yi[-1] <= 0:
+            continue
+        mlo = 2.0 * float(yi[-1]) + float(rng.uniform(0.25, 0.75)) + float(rng.integers(0, 3))
+        tlo = 5.0 * float(ti[-1]) + float(rng.uniform(0.25, 0.75)) + float(rng.integers(0, 3))
+        for kind, b in (("finite", Bounds(M=(mlo, mlo * 40 + 0.5), tau=(tlo, tlo * 40 + 0.5))), ("half-infinite", Bounds(M=(mlo, np.inf), tau=(tlo, np.inf)))):
+            for tg in (None, float(tau)):
+                fit_i = ForecasterOnePhase(rf, b)
+                ev += 1
+                inp_i = dict(curve=cname, M=M, tau=tau, dtype_time=str(ti.dtype), dtype_cum=str(yi.dtype), samples=len(ti), bounds=kind,
+                             M_bounds=list(b.M), tau_bounds=list(b.tau), tau_given=tg)
+                try:
+                    with warnings.catch_warnings():
+                        warnings.simplefilter("ignore")
+                        fit_i.fit(ti, yi) if tg is None else fit_i.fit(ti, yi, tau=tg)
+                except Exception as e:  # noqa: BLE001
+                    bad("fit fails on an integer-typed production table although the bounds are well-formed (the data-derived initial guess is not moved inside them)",
+                        inp_i, repr(e)[:200])
+                    continue
+                if not (b.M[0] <= fit_i.M_ <= b.M[1]) or (tg is None and not (b.tau[0] <= fit_i.tau_ <= b.tau[1])) or (tg is not None and fit_i.tau_ != tg):
+                    bad("fitted M / tau lie outside the configured bounds (integer-typed data)", inp_i, dict(M=float(fit_i.M_), tau=float(fit_i.tau_)))
     # ---------------- Bounds validation and guess regularisation
     for k in range(60 if ctx.quick else 1500):
         lo, hi = sorted(rng.uniform(-5, 5, 2))
